@@ -61,7 +61,7 @@ pub fn gen_chist(rng: &mut Rng, with_dump: bool) -> CHist {
     }
     // half of the histories are free of Symbol payloads (the known interner-order dependence cannot show in them)
     let with_symbols = rng.chance(1, 2);
-    let mut ops_l = vec!["lam", "app", "var", "two", "cst", "neg", "flag", "idx", "#num"];
+    let mut ops_l = vec!["lam", "app", "var", "two", "cst", "neg", "flag", "idx", "nil", "#num"];
     if with_symbols {
         ops_l.push("#sym");
     }
